@@ -229,7 +229,7 @@ def main():
         evaluations=len(lines), distinct_nontrivial=distinct,
         rule=prop.rule,
         samples=samples[:6],
-        traces_validated_against_impl=sum(1 for m, i in zip(model, impl) if m is not None and i is not None),
+        traces_validated_against_impl=sum(1 for m, i in zip(model, impl) if m is not None and i is not None) - discarded,
         disagreements=len(disagreements),
         oracle_failures_known=sum(v[1] for v in known_hits.values()),
         oracle_failures_new=len(new_fail),
